@@ -87,12 +87,12 @@ def welch_ref(x, y, fs, nx, nov):
 
 
 def pick_nx_pov(rng, tier):
-    nxs = [16, 20, 28, 32, 40, 48, 50, 56, 64, 88, 100, 112, 128, 154, 200, 256, 500, 512, 1000, 1022, 1024] + ([2048, 4094, 4096] if tier == "thorough" else [])
+    nxs = [16, 20, 28, 32, 40, 48, 50, 56, 64, 88, 90, 100, 112, 128, 154, 170, 180, 200, 256, 340, 360, 500, 512, 700, 1000, 1022, 1024] + ([2048, 4094, 4096] if tier == "thorough" else [])
     if rng.random() < 0.15:
         nxs = [17, 25, 45, 125, 243, 625] + ([4095] if tier == "thorough" else [])  # odd segment lengths: the last line is below Nyquist
     nx = int(rng.choice(nxs))
     povs = [p for p in (0.0, 0.2, 0.25, 0.5, 0.75) if float(nx * p).is_integer() and (p != 0.2 or nx % 2)]
-    more = [p for p in (0.1, 0.3, 0.4, 0.6, 0.7, 0.8, 0.9, 0.875) if abs(nx * p - round(nx * p)) < 1e-9 and int(nx * p) == round(nx * p)]  # e.g. nxseg = 100, 200, 1000 with 0.8 / 0.9
+    more = [p for p in (0.1, 0.3, 0.35, 0.4, 0.6, 0.7, 0.8, 0.9, 0.875, 0.29, 0.57, 0.58, 0.15, 0.45, 0.55, 0.65, 0.85) if abs(nx * p - round(nx * p)) < 1e-9]  # e.g. nxseg = 100, 200, 1000 with 0.8 / 0.9
     if more and rng.random() < 0.5:
         povs = more
     return nx, float(rng.choice(povs))
@@ -166,7 +166,7 @@ def run_welch(ctx, rng):
             wij = None
             for i in range(nch):
                 for jj, j in enumerate(refidx):
-                    P = welch_ref(Y[i], Y[j], fs, nx, int(nx * pov))
+                    P = welch_ref(Y[i], Y[j], fs, nx, int(round(nx * pov)))
                     e = np.max(np.abs(S[i, jj, 2:] - P[2:])) / np.max(np.abs(P))
                     if np.isnan(e):
                         e = np.inf  # a NaN entry is the worst possible deviation
@@ -180,11 +180,11 @@ def run_welch(ctx, rng):
                 hints = []
                 for nm, P in (("overlap ignored (pov=0.5 used)", welch_ref(Y[i], Y[j], fs, nx, nx // 2)),
                               ("no overlap used", welch_ref(Y[i], Y[j], fs, nx, 0)),
-                              ("conjugate / transposed pairing", np.conj(welch_ref(Y[i], Y[j], fs, nx, int(nx * pov))))):
+                              ("conjugate / transposed pairing", np.conj(welch_ref(Y[i], Y[j], fs, nx, int(round(nx * pov)))))):
                     if np.max(np.abs(S[i, jj, 2:] - P[2:])) / np.max(np.abs(P)) < 1e-9:
                         hints.append(nm)
                 ctx.fail("per:not_welch" + (":" + hints[0].split(" ")[0] if hints else ""),
-                         f"'per' entry ({i},{j}) differs from Welch(Hann, constant detrend, noverlap={int(nx*pov)}, one-sided, conj(X_i)X_j) by {worst:.2e} "
+                         f"'per' entry ({i},{j}) differs from Welch(Hann, constant detrend, noverlap={int(round(nx*pov))}, one-sided, conj(X_i)X_j) by {worst:.2e} "
                          f"(nxseg={nx}, pov={pov}, N={N}); matches instead: {hints}")
             if allref:
                 ctx.ev("hermitian-psd(per)")
